@@ -37,6 +37,12 @@ def o21(ctx):
 
 
 # ---------------------------------------------------------------------------------------------- lexical agreement
+class CommentWeakened(Exception):
+    def __init__(self, node):
+        super().__init__("comment character conditionally ordinary")
+        self.node = node
+
+
 class LinesDropped(Exception):
     def __init__(self, node):
         super().__init__("lines dropped")
@@ -77,6 +83,16 @@ def reader_constants(prog):
         if isinstance(par, ast.Call) and not (isinstance(par.func, ast.Name) and par.func.id in ("enumerate", "list", "iter")):
             break
         node, par = par, m.parents.get(par)
+    # the comment character ends a token wherever it stands (labels may carry a glued `#n`): its test is a plain conjunct of the
+    # "character belongs to a token" condition, never weakened by an `or`
+    for n in ast.walk(fn):
+        if isinstance(n, ast.Compare) and len(n.ops) == 1 and isinstance(n.ops[0], (ast.NotEq, ast.Eq)) and isinstance(n.comparators[0], ast.Constant) \
+                and n.comparators[0].value in consts["comment"] and isinstance(n.left, ast.Name):
+            par = m.parents.get(n)
+            while isinstance(par, (ast.BoolOp, ast.UnaryOp)):
+                if isinstance(par, ast.BoolOp) and isinstance(par.op, ast.Or) and isinstance(n.ops[0], ast.NotEq):
+                    raise CommentWeakened(par)
+                par = m.parents.get(par)
     uses_isspace = any(isinstance(n, ast.Attribute) and n.attr == "isspace" for n in ast.walk(fn))
     if not uses_isspace:
         raise Unsupported("tokenizer does not classify separators with str.isspace", fn)
@@ -138,6 +154,12 @@ def template(node):
 def o22(ctx):
     try:
         c, mt, ft = reader_constants(ctx.prog)
+    except CommentWeakened as e:
+        mt, ft = ctx.prog.func("starfileio.Token.tokenize")
+        ctx.count(1)
+        ctx.finding("starfileio.Token.tokenize", e.node, "the comment character is treated as an ordinary character under some condition: a label "
+                    "written with its numbering comment glued on (`_rlnCoordinateX#1`) is then read as a column named with the comment", e.node, mt)
+        return
     except LinesDropped as e:
         mt, ft = ctx.prog.func("starfileio.Token.tokenize")
         ctx.count(1)
@@ -319,7 +341,7 @@ def o23(ctx):
     term = to_term(r.ret)
     try:
         c, _, _ = reader_constants(ctx.prog)
-    except LinesDropped:
+    except (LinesDropped, CommentWeakened):
         c = {"property": "_", "loop": "loop_", "comment": "#", "linesep": "\n"}  # reported by O2.2
     bad = []
     for v in FLOATS + INTS + TEXTS:
